@@ -722,12 +722,15 @@ func (s *Shard) validateSeriesAndFields(points []models.Point) ([]models.Point, 
 				continue
 			}
 
-			if mf.FieldBytes(fieldKey) != nil {
+			dataType := dataTypeFromModelsFieldType(iter.Type())
+			if dataType == influxql.Unknown {
 				continue
 			}
 
-			dataType := dataTypeFromModelsFieldType(iter.Type())
-			if dataType == influxql.Unknown {
+			// The field may have been created by a concurrent writer since this
+			// point was validated. If it was created with another type, leave it
+			// to CreateFieldIfNotExists to report the conflict.
+			if f := mf.FieldBytes(fieldKey); f != nil && f.Type == dataType {
 				continue
 			}
 
